@@ -7,7 +7,8 @@ Request: escaped fields, the first character of each field is a tag. Environment
 `i<ifs>` | `u` (IFS unset), `o<letters>` (n nullglob, f failglob, d dotglob, e/E extglob on/off, g noglob),
 `p<arg>`…, `v<name>=<val>`…, `a<name>` `e<elem>`…, `h<home>`, `n<dir entry>`….
 Mode `Kw` (full expansion, default), `Ks` (expansion to one string), `Kb` (full expansion, followed by ` %| ` and
-the reference semantics `WordExp.specExpandB`).
+the reference semantics `WordExp.specExpandB`, then ` %| D<flags>`: the failing conjuncts of the proved domain,
+`WordExp.domainFlags`).
 Word, in prefix notation: `T<text>` `Q<single quoted>` `N<ansi-c, decoded>` `E<escaped char>` `H` (tilde)
 `C<command output>` `M<arith value>` `V<name>` `P<k>` `X@` `X*` `A@<name>` `A*<name>` `#`,
 `D(` … `D)` double quotes, `O<-|+><:|.>` `<param>` … `O)` for `${p:-w}` and friends,
@@ -228,7 +229,8 @@ def run1 (q : Req) (env : Env) : Str :=
   | none => "bad-word".toList
   | some bw =>
     if q.both then
-      act q env (braceJoin bw) ++ " %| ".toList ++ showRes (WordExp.specExpandB env q.opts q.names bw)
+      act q env (braceJoin bw) ++ " %| ".toList ++ showRes (WordExp.specExpandB env q.opts q.names bw) ++
+        " %| D".toList ++ WordExp.domainFlags env bw
     else act q env (braceJoin bw)
 
 def handle (toks : List Str) : Str :=
